@@ -7,7 +7,7 @@ import QmiModel.Lemmas.C10Loop
 
 Property theorems only.  Every statement quantifies over **all finite interleavings** of the task thread's own
 transitions, the runner constructor and the (serialised) runner operations: `Reachable s` = "`s` is the result
-of some history `tr` with `exec init tr = some s`", no bound on the length of `tr`, on the number of operations,
+of some history `tr` with `exec (initS v0) tr = some s`" (`v0` = the settings the task class gave itself in `__init__`), no bound on the length of `tr`, on the number of operations,
 or on the order in which the actors move.  The proofs go through the inductive invariant `Inv`
 (`Lemmas/C10Inv.lean`).  Statements come in two forms where it matters: over the ghost fields of the state, and
 over the history alone (`…_hist`), so that nothing depends on how a ghost field happens to be updated.
@@ -22,11 +22,11 @@ theorem run_at_most_once {s : State} (h : Reachable s) : s.runs ≤ 1 := by
   split at this <;> omega
 
 /-- … as a statement about histories: no history contains two invocations of `run()` -/
-theorem run_at_most_once_hist {tr : List Act} {s : State} (h : exec init tr = some s) :
+theorem run_at_most_once_hist {v0 : Option Nat} {tr : List Act} {s : State} (h : exec (initS v0) tr = some s) :
     tr.count .runEnter ≤ 1 := by
-  have h1 := run_at_most_once ⟨tr, h⟩
+  have h1 := run_at_most_once ⟨v0, tr, h⟩
   have h2 := exec_runs h
-  simp only [init] at h2
+  simp only [initS, init] at h2
   omega
 
 /-- `run()` has been invoked only if a `start()` went through -/
@@ -37,13 +37,13 @@ theorem run_only_after_start {s : State} (h : Reachable s) (hr : 0 < s.runs) : s
 /-- … as a statement about histories: every invocation of `run()` is preceded by a `start_task` region that was
 taken in state READY_TO_RUN (and therefore returned normally) -/
 theorem run_only_after_start_hist {pre post : List Act} {s : State}
-    (h : exec init (pre ++ .runEnter :: post) = some s) :
-    ∃ p1 p2 s1, pre = p1 ++ .startKick :: p2 ∧ exec init p1 = some s1 ∧ s1.st = .ready ∧
+    {v0 : Option Nat} (h : exec (initS v0) (pre ++ .runEnter :: post) = some s) :
+    ∃ p1 p2 s1, pre = p1 ++ .startKick :: p2 ∧ exec (initS v0) p1 = some s1 ∧ s1.st = .ready ∧
       res s1 .startKick = .unit := by
   obtain ⟨s1, h1, h2⟩ := exec_append.1 h
   obtain ⟨s2, h3, _⟩ := exec_cons.1 h2
   -- `runEnter` is enabled only at pc = goRun, where the state is RUNNING, hence `started`
-  have hi := inv_reachable ⟨pre, h1⟩
+  have hi := inv_reachable ⟨v0, pre, h1⟩
   have hpc : s1.pc = .goRun := by
     simp only [step] at h3
     split at h3
@@ -71,11 +71,11 @@ theorem stop_first_never_runs {s : State} (h : Reachable s) (hs : s.stopFirst = 
 /-- … as a statement about histories: if a `stop_task` region is executed at a moment when no `start_task` has
 gone through, then no invocation of `run()` occurs anywhere in the history — neither before nor after -/
 theorem stop_first_never_runs_hist {p1 p2 : List Act} {s1 s : State}
-    (h1 : exec init p1 = some s1) (hns : s1.started = false)
+    {v0 : Option Nat} (h1 : exec (initS v0) p1 = some s1) (hns : s1.started = false)
     (h2 : exec s1 (.stopRegion :: p2) = some s) :
     (p1 ++ .stopRegion :: p2).count .runEnter = 0 := by
   obtain ⟨s2, hs2, h3⟩ := exec_cons.1 h2
-  have hi := inv_reachable ⟨p1, h1⟩
+  have hi := inv_reachable ⟨v0, p1, h1⟩
   -- the stop region is enabled only on an available runner; not started ⇒ READY_TO_RUN or already stopped
   have hup : s1.phase = .up := by
     cases hc : s1.stopCtx with
@@ -88,11 +88,11 @@ theorem stop_first_never_runs_hist {p1 p2 : List Act} {s1 s : State}
     have hsf := hi.stopped_sf
     have hsf' := hi.sf_st
     cases hst1 : s1.st <;> simp_all
-  have hr2 : Reachable s2 := reachable_step ⟨p1, h1⟩ hs2
+  have hr2 : Reachable s2 := reachable_step ⟨v0, p1, h1⟩ hs2
   have hfin := (stop_first_never_runs hr2 hsf2 p2 s h3).1
-  have hall : exec init (p1 ++ .stopRegion :: p2) = some s := exec_append.2 ⟨s1, h1, h2⟩
+  have hall : exec (initS v0) (p1 ++ .stopRegion :: p2) = some s := exec_append.2 ⟨s1, h1, h2⟩
   have := exec_runs hall
-  simp only [init] at this
+  simp only [initS, init] at this
   omega
 
 example : ∃ s, exec init [.initOk, .ctorWait, .ctorGet, .stopRegion, .startCheck, .wake, .threadEnd, .join, .joinSet] = some s ∧
@@ -336,22 +336,22 @@ example : ∃ s, exec init [.initOk, .ctorWait, .ctorGet, .startCheck, .startKic
 
 /-- `update_settings()` reports true exactly when a value was posted since the previous successful update
 (`postedSince` reads this off the history: a `set_settings` after the last `pop`) -/
-theorem update_true_iff_posted_since_last {tr : List Act} {s : State} (h : exec init tr = some s) :
+theorem update_true_iff_posted_since_last {v0 : Option Nat} {tr : List Act} {s : State} (h : exec (initS v0) tr = some s) :
     res s .updCheck = .bool (postedSince tr) := by
-  have hi := inv_reachable ⟨tr, h⟩
-  have hp := exec_posted inv_init h
-  simp only [init] at hp
+  have hi := inv_reachable ⟨v0, tr, h⟩
+  have hp := exec_posted (inv_initS v0) h
+  simp only [initS, init] at hp
   simp only [res, postedSince, ← hp, hi.posted_iff]
 
 /-- when it reports true, the `pop` that follows cannot fail, and the task then holds the most recently posted
 value (`lastPost` = argument of the latest `set_settings` in the history, including those that slipped in between
 the test and the `pop`); the slot is empty afterwards -/
-theorem settings_newest_wins {tr : List Act} {s : State} (h : exec init tr = some s) (hpc : s.pc = .inUpd) :
+theorem settings_newest_wins {v0 : Option Nat} {tr : List Act} {s : State} (h : exec (initS v0) tr = some s) (hpc : s.pc = .inUpd) :
     ∃ v s', lastPost tr = some v ∧ step s .updPop = some s' ∧ res s .updPop = .bool true ∧
       s'.settings = some v ∧ s'.slot = none ∧ s'.posted = false := by
-  have hi := inv_reachable ⟨tr, h⟩
+  have hi := inv_reachable ⟨v0, tr, h⟩
   have hl := exec_lastPosted h
-  simp only [init] at hl
+  simp only [initS, init] at hl
   have hsome := hi.inUpd_slot hpc
   cases hslot : s.slot with
   | none => simp [hslot] at hsome
@@ -364,12 +364,12 @@ theorem settings_newest_wins {tr : List Act} {s : State} (h : exec init tr = som
     · simp [res, hslot]
 
 /-- the runner-side view: `get_pending_settings()` shows the newest posted value until the task has taken it -/
-theorem pending_is_newest {tr : List Act} {s : State} (h : exec init tr = some s) :
+theorem pending_is_newest {v0 : Option Nat} {tr : List Act} {s : State} (h : exec (initS v0) tr = some s) :
     res s .getPending = .val (if postedSince tr then lastPost tr else none) := by
-  have hi := inv_reachable ⟨tr, h⟩
-  have hp := exec_posted inv_init h
+  have hi := inv_reachable ⟨v0, tr, h⟩
+  have hp := exec_posted (inv_initS v0) h
   have hl := exec_lastPosted h
-  simp only [init] at hp hl
+  simp only [initS, init] at hp hl
   simp only [res, postedSince, lastPost, ← hp, ← hl, hi.posted_iff]
   cases hslot : s.slot with
   | none => simp
@@ -422,10 +422,10 @@ theorem update_false_publishes_nothing {s s' : State} (hs : step s .updCheck = s
 /-! ## status -/
 
 /-- `get_status()` returns what the task body wrote to `self.status` last -/
-theorem get_status_last_written {tr : List Act} {s : State} (h : exec init tr = some s) :
+theorem get_status_last_written {v0 : Option Nat} {tr : List Act} {s : State} (h : exec (initS v0) tr = some s) :
     res s .getStatus = .val (lastStatus tr) := by
   have := exec_status h
-  simp only [init] at this
+  simp only [initS, init] at this
   simp only [res, lastStatus, this]
 
 /-! ## the compositions `__exit__` and `release_rpc_object` -/
